@@ -258,7 +258,7 @@ const valueProcessXML = `<?xml version="1.0" encoding="UTF-8"?>
         <olive:taskDefinition type="service"/>
         <olive:taskHeaders><olive:header name="h1" value="x"/><olive:header name="h2" value="declared" ref="$a.b"/><olive:header name="h3" ref="$missing.path"/><olive:header name="h4" ref="$"/><olive:header name="h5" ref="nodollar"/></olive:taskHeaders>
         <olive:properties><olive:property name="a" type="object"/><olive:property name="b" type="integer" ref="$a.b"/><olive:property name="c" type="array" ref="$missing.c"/><olive:property name="d" type="object" ref="$a.nothing"/><olive:property name="e" type="integer"/><olive:property name="f" type="string" ref="$a"/></olive:properties>
-        <olive:results><olive:field name="r" type="string"/></olive:results>
+        <olive:results><olive:field name="r" type="string"/><olive:field name="n" type="integer"/><olive:field name="fl" type="float"/></olive:results>
         <olive:dataOutput name="out" targetRef="dor"/>
       </bpmn:extensionElements>
       <bpmn:incoming>f1</bpmn:incoming><bpmn:outgoing>f2</bpmn:outgoing>
@@ -328,9 +328,9 @@ func engineValue(kind string, res *ValueResult) {
 						res.Mismatches = append(res.Mismatches, fmt.Sprintf("engine kind=%s value=%#v: header h2 (value=\"declared\" ref=\"$a.b\") is %q, want %q", kind, v, got, wantH))
 					}
 					if asItem {
-						t.Do(bpmn.DoWithResults(map[string]any{"r": schema.NewValue(v)}), bpmn.DoWithObjects(map[string]any{"out": v}))
+						t.Do(bpmn.DoWithResults(map[string]any{"r": schema.NewValue(v), "n": schema.NewValue(v), "fl": schema.NewValue(v)}), bpmn.DoWithObjects(map[string]any{"out": v}))
 					} else {
-						t.Do(bpmn.DoWithResults(map[string]any{"r": v}), bpmn.DoWithObjects(map[string]any{"out": v}))
+						t.Do(bpmn.DoWithResults(map[string]any{"r": v, "n": v, "fl": v}), bpmn.DoWithObjects(map[string]any{"out": v}))
 					}
 					answered = true
 				case bpmn.CeaseFlowTrace:
@@ -357,6 +357,17 @@ func engineValue(kind string, res *ValueResult) {
 			}
 		} else if want != nil && answered {
 			res.Mismatches = append(res.Mismatches, fmt.Sprintf("engine task result kind=%s value=%#v: declared result not stored", kind, v))
+		}
+		// the same answer under result fields declared integer and float: the value handed in is the
+		// value stored, whatever Go kind it came as (a JSON number arrives as float64)
+		for _, name := range []string{"n", "fl"} {
+			if it, ok := vars[name]; ok && want != nil {
+				if g := it.Value(); !reflect.DeepEqual(g, want) {
+					res.Mismatches = append(res.Mismatches, fmt.Sprintf("engine task result kind=%s value=%#v under the declared field %q: read back %#v, want %#v", kind, v, name, g, want))
+				}
+			} else if want != nil && answered {
+				res.Mismatches = append(res.Mismatches, fmt.Sprintf("engine task result kind=%s value=%#v: declared result %q not stored", kind, v, name))
+			}
 		}
 		cancel()
 	}
